@@ -372,8 +372,12 @@ impl<'a> DataTelegram<'a> {
             crate::consts::SD2 => {
                 let l1 = buffer[1];
                 let l2 = buffer[2];
+                let sd2 = buffer[3];
                 buffer = &buffer[3..];
-                if l1 != l2 {
+                if sd2 != crate::consts::SD2 {
+                    log::debug!("Repeated start delimiter is wrong: 0x{:02x}", sd2);
+                    return Some(Err(()));
+                } else if l1 != l2 {
                     log::debug!("Length info mismatch: {} != {}", l1, l2);
                     return Some(Err(()));
                 } else if l1 < 3 {
